@@ -304,6 +304,30 @@ func (tb *TermBuilder) build(v ssa.Value) *Term {
 	case *ssa.UnOp:
 		switch x.Op {
 		case token.MUL:
+			// store-to-load forwarding inside one block: `err = f(); if err != nil` on a variable that
+			// escapes (a named result captured by a deferred closure) still reads the value just stored,
+			// provided no call (which could run such a closure) lies between the store and the load
+			if al, ok := x.X.(*ssa.Alloc); ok {
+				if blk := x.Block(); blk != nil {
+					pos := -1
+					for i, ins := range blk.Instrs {
+						if ins == ssa.Instruction(x) {
+							pos = i
+						}
+					}
+				scan:
+					for i := pos - 1; i >= 0; i-- {
+						switch y := blk.Instrs[i].(type) {
+						case *ssa.Store:
+							if y.Addr == ssa.Value(al) {
+								return tb.Of(y.Val)
+							}
+						case ssa.CallInstruction:
+							break scan
+						}
+					}
+				}
+			}
 			return tb.load(x.X)
 		case token.NOT:
 			return &Term{Op: "un", Name: "!", Args: []*Term{tb.Of(x.X)}}
